@@ -27,7 +27,7 @@ ASSUMPTIONS = [
     "of distinct images, at least 2 since base-1 entropy is undefined)",
     "locality/permutation/entropy agreement judged to 1e-9 relative + 1e-12 absolute; window 0 / step 0 not driven",
 ]
-REQUIRED = {"all": ["type:WF", "type:LC", "type:LZW", "user_alphabets", "user_alphabet_switch_same_object",
+REQUIRED = {"all": ["salted_objects", "type:WF", "type:LC", "type:LZW", "user_alphabets", "user_alphabet_switch_same_object",
                     "step_gt_1_partial_tail", "locality_windows", "wf_entropy_windows", "rejected_unknown_type",
                     "rejected_long_window", "homopolymer_windows", "step_ge_N", "numpy_int_arguments", "windows_ge_255"]}
 SIZES = [2, 3, 4, 5, 6, 8, 10, 11, 12, 15, 18, 20]
